@@ -17,10 +17,12 @@ import (
 	"fmt"
 	"os"
 	"sort"
+	"strings"
 	"time"
 
 	"verif/harness/hmain"
 	"verif/harness/hx"
+	"verif/harness/pipedrv"
 )
 
 var execStats = map[string]int{}
@@ -58,6 +60,22 @@ func evSx(text string) hx.Sx { return hx.L(hx.S(text), hx.I(len(text))) }
 
 // streamFor: cases that contain an input of a recorded finding run under the finding's own stream
 func streamFor(base string, hasK8s bool, evs []hx.Sx) string {
+	return streamForChain(base, hasK8s, false, evs)
+}
+
+// moveBlockLater: a block-mode move behind another action (recorded finding: insane-json trusts a
+// stale cached index when a node that was not freshly dug is Suicide-d after a nested removal)
+func moveBlockLater(pl []hx.Sx) bool {
+	for i, p := range pl {
+		f := hx.Items(p)
+		if i > 0 && hx.Str(f[0]) == "move" && strings.Contains(hx.Str(f[1]), `"mode":"block"`) {
+			return true
+		}
+	}
+	return false
+}
+
+func streamForChain(base string, hasK8s, moveBlock bool, evs []hx.Sx) string {
 	lenient, bad := false, false
 	for _, e := range evs {
 		if hx.IsInt(e) {
@@ -74,6 +92,8 @@ func streamFor(base string, hasK8s bool, evs []hx.Sx) string {
 	switch {
 	case bad:
 		return "k8s-bad-log"
+	case moveBlock:
+		return "chain-move-block"
 	case lenient:
 		return "lenient-json"
 	}
@@ -203,7 +223,7 @@ func c13Gen(c *hmain.Ctx) {
 				evs = append(evs, evSx(g.event()))
 			}
 		}
-		c.Do(streamFor("chain", plugins[first].typ == "k8s-multiline", evs), first, hx.L(hx.L(pl...), hx.L(evs...)), true)
+		c.Do(streamForChain("chain", plugins[first].typ == "k8s-multiline", moveBlockLater(pl), evs), first, hx.L(hx.L(pl...), hx.L(evs...)), true)
 	}
 
 	genModels(c)
@@ -241,5 +261,15 @@ func c13Gen(c *hmain.Ctx) {
 func main() {
 	hmain.Run(&hmain.Prop{ID: "C13",
 		Rule: "catalogue: every table configuration x every notable value (invalid UTF-8, broken embedded JSON, C12 decoder witnesses, huge numbers, containers, non-object roots) in 4 document shapes, 2 events + time-out per case; random: sequences over an adversarial document grammar for every plugin; chain: 2..3 plugins sharing the events; model streams: exhaustive small scope + random inputs of each modelled function. Non-trivial = at least two events, or a model case whose input exercises the modelled arithmetic (see models.go); distinct = distinct (sub-model, case) text.",
-		Gen:  c13Gen, Exec: c13Exec})
+		Gen: func(c *hmain.Ctx) {
+			c13Gen(c)
+			// processor-level clause on the real pipeline: a time-out event is only handed to a busy action
+			pipedrv.GenFamilies(c, pipedrv.PipeWhich, []pipedrv.Fam{
+				{Stream: "pipe-discard-before-hold", Opts: pipedrv.FamDiscardBeforeHold, N: 40},
+				{Stream: "pipe-hold", Opts: pipedrv.FamHold, N: 40},
+				{Stream: "pipe-two-holders", Opts: pipedrv.FamTwoHolders, N: 30},
+				{Stream: "pipe-split", Opts: pipedrv.FamSplit, N: 20},
+			})
+		},
+		Exec: pipedrv.WrapExec(c13Exec)})
 }
